@@ -3,7 +3,7 @@
    specification (headers, versions, streams) in Proofs/XfrSpec.v. *)
 From DV Require Import Base.Prelude Model.XfrM Proofs.XfrSpec.
 From DV Require Proofs.XfrZone Proofs.XfrDiff.
-From DV Require Proofs.XfrSafety Proofs.XfrBasic Proofs.XfrIxfr Proofs.XfrAxfr Proofs.XfrFault Proofs.XfrOrder Proofs.XfrRefresh Proofs.XfrGlue Proofs.XfrTsig Proofs.XfrSections Proofs.XfrGroup Proofs.XfrSoaFaults Proofs.XfrTsigLink Proofs.XfrAddStart Proofs.XfrBody Proofs.XfrGeneral Proofs.XfrGeneralAxfr Proofs.XfrLegacy Proofs.XfrGeneralOrder Proofs.XfrInversion.
+From DV Require Proofs.XfrSafety Proofs.XfrBasic Proofs.XfrIxfr Proofs.XfrAxfr Proofs.XfrFault Proofs.XfrOrder Proofs.XfrRefresh Proofs.XfrGlue Proofs.XfrTsig Proofs.XfrSections Proofs.XfrGroup Proofs.XfrSoaFaults Proofs.XfrTsigLink Proofs.XfrAddStart Proofs.XfrBody Proofs.XfrGeneral Proofs.XfrGeneralAxfr Proofs.XfrLegacy Proofs.XfrGeneralOrder Proofs.XfrInversion Proofs.XfrInversionGen.
 From DV Require Model.TsigM.
 From Coq Require Import Sorting.Permutation.
 
@@ -958,3 +958,18 @@ Theorem udp_ixfr_done_is_denotation : forall fin z0 ser w ws rest z' n,
     z' = zput soakey (v_ttl b, [v_soa b]) z1.
 Proof. exact XfrInversion.udp_ixfr_done_is_denotation. Qed.
 Print Assumptions udp_ixfr_done_is_denotation.
+
+(* the inversion with NO restriction on the records (any class, type, TTL; apex SOA records in canonical form)
+   and on the client zone; the denotation is stated with the transaction operations themselves:
+   m_del / m_add = delete_exact / add of one record (out-of-zone records skipped), m_soa = replace of the SOA *)
+Theorem ixfr_done_is_denotation_any : forall fin z0 ser ws rest z' n,
+  ttl_ok (v_ttl fin) -> v_serial fin <> ser -> serial_lt (v_serial fin) ser = false ->
+  chunking tIXFR (soa_rr fin :: rest) ws -> Forall XfrInversionGen.any_rec rest ->
+  match rest with x :: _ => exists b, x = soa_rr b /\ ttl_ok (v_ttl b) | [] => True end ->
+  inbound_xfr z0 tIXFR (Some ser) false ws = (Done z', n) ->
+  exists secs z1 b extra,
+    rest = XfrSections.secs_stream secs ++ soa_rr b :: extra /\ secs <> [] /\ XfrInversionGen.skel_g ser fin secs /\
+    XfrSections.end_serial ser secs = v_serial fin /\ v_soa b = v_soa fin /\
+    XfrInversionGen.m_secs z0 secs = Ok z1 /\ XfrInversionGen.m_soa z1 b = Ok z'.
+Proof. exact XfrInversionGen.ixfr_done_is_denotation_any. Qed.
+Print Assumptions ixfr_done_is_denotation_any.
